@@ -32,7 +32,8 @@ Record ops (T : Type) : Type := mkOps {
   mul : T -> T -> T;
   div : T -> T -> T;
   ofZ : Z -> T;           (* static_cast<scalar_t>(integer) *)
-  nan : T                 (* std::numeric_limits<scalar_t>::quiet_NaN() / value of an invalid access *)
+  nan : T;                (* std::numeric_limits<scalar_t>::quiet_NaN() / value of an invalid access *)
+  fin : T -> bool         (* std::isfinite (every integer / rational is finite: constantly true for the exact instances) *)
 }.
 Arguments cmp {T} _ _ _.
 Arguments add {T} _ _ _.
@@ -41,6 +42,7 @@ Arguments mul {T} _ _ _.
 Arguments div {T} _ _ _.
 Arguments ofZ {T} _ _.
 Arguments nan {T} _.
+Arguments fin {T} _ _.
 
 (* ------------------------------------------------------------------------------------------------ *)
 (* binary64 helpers: integer -> double, floor / ceil of a double                                     *)
@@ -97,10 +99,20 @@ Definition sort (l : list T) : list T := fold_right insert [] l.
 Definition nthZ (l : list T) (i : Z) : T :=
   if i <? 0 then nan Op else nth (Z.to_nat i) l (nan Op).
 
+(* the midpoint of the two neighbours, /repo 985fdb5 (before: `(lvalue + rvalue) / 2`, which overflows for two large values):
+     const auto sum = lvalue + rvalue;
+     return std::isfinite(sum) ? (sum / 2) : (lvalue / 2 + rvalue / 2);
+   [mid_shape] is the two-branch expression with the test as a parameter (the shape of the translated kernel
+   src_pct_mid of group pctpos, see C20_kernel_indices) *)
+Definition mid_shape (sum_finite : bool) (a b : T) : T :=
+  if sum_finite then div Op (add Op a b) (ofZ Op 2)
+  else add Op (div Op a (ofZ Op 2)) (div Op b (ofZ Op 2)).
+Definition mid (a b : T) : T := mid_shape (fin Op (add Op a b)) a b.
+
 (* detail::percentile after the two positions are known *)
 Definition pick (s : list T) (lpos rpos : Z) : T :=
   if src_pct_same lpos rpos then nthZ s lpos
-  else div Op (add Op (nthZ s lpos) (nthZ s rpos)) (ofZ Op 2).
+  else mid (nthZ s lpos) (nthZ s rpos).
 
 (* percentile_sorted: from_position(pos) = *(begin + pos) *)
 Definition percentile_sorted (s : list T) (p : float) : T :=
@@ -199,15 +211,15 @@ Definition fcmp (x y : float) : Z :=
   end.
 
 Definition float_ops : ops float :=
-  mkOps float fcmp PrimFloat.add PrimFloat.sub PrimFloat.mul PrimFloat.div Z2F PrimFloat.nan.
+  mkOps float fcmp PrimFloat.add PrimFloat.sub PrimFloat.mul PrimFloat.div Z2F PrimFloat.nan PrimFloat.is_finite.
 
 Definition zcmp (x y : Z) : Z := match Z.compare x y with Eq => 0 | Lt => -1 | Gt => 1 end.
 (* integers: only the order matters for the discrete clauses (division truncates) *)
-Definition Z_ops : ops Z := mkOps Z zcmp Z.add Z.sub Z.mul Z.quot (fun z => z) 0.
+Definition Z_ops : ops Z := mkOps Z zcmp Z.add Z.sub Z.mul Z.quot (fun z => z) 0 (fun _ => true).
 
 Definition qcmp (x y : Q) : Z := match Qcompare x y with Eq => 0 | Lt => -1 | Gt => 1 end.
 (* exact rationals: "every real v" of the property, and exact means *)
-Definition Q_ops : ops Q := mkOps Q qcmp Qplus Qminus Qmult Qdiv inject_Z 0%Q.
+Definition Q_ops : ops Q := mkOps Q qcmp Qplus Qminus Qmult Qdiv inject_Z 0%Q (fun _ => true).
 
 (* percentile lists are doubles: make_from_percentiles sorts them with operator< on doubles *)
 Definition fsort (ps : list float) : list float := sort float_ops ps.
